@@ -18,9 +18,9 @@ func init() {
 		Technique: "wire-integer hygiene (guarded subtraction / clamp before narrowing) and length-prefix agreement on go/ssa values, who-may-call census of writeRecord/header.init, guard census of the record reader, table agreement with the FastCGI specification constants and record header layout",
 		Meta: core.Meta{
 			Level: "other",
-			Explanation: "Decides in bfe_fcgi: (bounds) every slice bound in writePairs that is computed by a subtraction from parameter lengths is protected by a dominating comparison that keeps it non-negative; (faithful pairs) the name and value handed to the stream are the map's key and value themselves (no slice of them), the two encodeSize prefixes are computed from len() of exactly the SSA values that are written after them, name length first, in the order prefix bytes, name, value, all to the writer created by newWriter for the params stream, and every success return passes w.Close() (stream terminator); (record size) maxWrite <= 65535, streamWriter.Write clamps each chunk to a value <= 65535 before calling writeRecord, every other writeRecord caller passes nil or an 8-byte block, header.init (the uint16 narrowing) is called only by writeRecord with len(content); writeRecord serialises header, the same content, pad[:h.PaddingLength] in this order under the client mutex and writes the buffer once; encodeSize uses the 1-byte form only under size <= 127 and the 4-byte form with bit 31 set otherwise; (reader) record.read stops at FCGI_END_REQUEST with io.EOF, rejects version != 1, sizes rbuf before slicing it, streamReader.Read clamps the copy to the buffered bytes, and the body bytes are selected by record type (FCGI_STDOUT vs FCGI_STDERR compared somewhere on the read path); (sequence) FCGIClient.Do writes BEGIN_REQUEST(role RESPONDER), the params stream (FCGI_PARAMS) and the stdin stream (FCGI_STDIN, copied from the request body and closed) in this order, returning early on the first two errors, and hands out a streamReader of the same client; response bodies are built on the buffered reader the header was parsed from; record type / role / status constants and the 8-byte header layout equal the specification. " +
+			Explanation: "Decides in bfe_fcgi: (bounds) every slice bound in writePairs that is computed by a subtraction from parameter lengths is protected by a dominating comparison that keeps it non-negative; (faithful pairs) the name and value handed to the stream are the map's key and value themselves (no slice of them), the two encodeSize prefixes are computed from len() of exactly the SSA values that are written after them, name length first, in the order prefix bytes, name, value, all to the writer created by newWriter for the params stream, and every success return passes w.Close() (stream terminator); (record size) maxWrite <= 65535, streamWriter.Write clamps each chunk to a value <= 65535 before calling writeRecord, every other writeRecord caller passes nil or an 8-byte block, header.init (the uint16 narrowing) is called only by writeRecord with len(content); writeRecord serialises header, the same content, pad[:h.PaddingLength] in this order under the client mutex and writes the buffer once; encodeSize uses the 1-byte form only under size <= 127 and the 4-byte form with bit 31 set otherwise; (reader) record.read stops at FCGI_END_REQUEST with io.EOF, rejects version != 1, sizes rbuf before slicing it, streamReader.Read clamps the copy to the buffered bytes, and the body bytes are selected by record type (FCGI_STDOUT vs FCGI_STDERR compared somewhere on the read path), and the reply ends only where the responder ends it (rule resp-end: every error streamReader.Read returns derives from the error of its record.read call; in record.read an end-of-stream marker such as io.EOF is returned only under rec.h.Type == FCGI_END_REQUEST, every other error is the result of an I/O call or a constructed error — an empty record of any type is not the end of the reply); (sequence) FCGIClient.Do writes BEGIN_REQUEST(role RESPONDER), the params stream (FCGI_PARAMS) and the stdin stream (FCGI_STDIN, copied from the request body and closed) in this order, returning early on the first two errors, and hands out a streamReader of the same client; response bodies are built on the buffered reader the header was parsed from; record type / role / status constants and the 8-byte header layout equal the specification. " +
 				"Not covered: that the upper bound of a truncating slice is within the string (relational), numeric correctness of padding and size encoding, bufio's chunking, what the responder sends, the HTTP semantics of the CGI response header.",
-			RuleText:    "obligations = per function with computed slice bounds the guard clause; the pair-writing clauses of writePairs; each writeRecord call site; the clamps; each ordering clause of writeRecord/Do; each reader clause; each specification constant",
+			RuleText:    "obligations = per function with computed slice bounds the guard clause; the pair-writing clauses of writePairs; each writeRecord call site; the clamps; each ordering clause of writeRecord/Do; each reader clause; each return of streamReader.Read and record.read (provenance of the error that ends the reply); each specification constant",
 			Assumptions: []string{"binary.Write/Read serialise struct fields in declaration order, big endian", "bfe_bufio.Writer delivers bytes in order to the underlying streamWriter"},
 		},
 		Run: runC55,
@@ -38,6 +38,10 @@ func init() {
 			{Name: "stdin-not-closed", File: "bfe_fcgi/fcgi_client.go", Old: "		io.Copy(body, req)\n	}\n	body.Close()\n", New: "		io.Copy(body, req)\n		body.Close()\n	}\n", Expect: "do-sequence|Do:stdin"},
 			{Name: "body-skips-buffer", File: "bfe_fcgi/transport.go", Old: "		resp.Body = ioutil.NopCloser(rb)\n	}\n	return resp, nil", New: "		resp.Body = ioutil.NopCloser(reader)\n	}\n	return resp, nil", Expect: "resp-body|readResponse"},
 			{Name: "record-type-renumbered", File: "bfe_fcgi/fcgi_client.go", Old: "	// FCGIParams is the parameters flag.\n	FCGIParams\n\n	// FCGIStdin is the standard input flag.\n	FCGIStdin\n", New: "	// FCGIStdin is the standard input flag.\n	FCGIStdin\n\n	// FCGIParams is the parameters flag.\n	FCGIParams\n", Expect: "spec-const"},
+			{Name: "empty-record-ends-reply", File: "bfe_fcgi/fcgi_client.go", Old: "			w.buf, err = rec.read(w.c.rwc)\n			if err != nil {\n				return\n			}\n", New: "			w.buf, err = rec.read(w.c.rwc)\n			if err != nil {\n				return\n			}\n			if len(w.buf) == 0 {\n				return 0, io.EOF\n			}\n", Expect: "resp-end|streamReader.Read"},
+			{Name: "zero-length-record-is-eof", File: "bfe_fcgi/fcgi_client.go", Old: "	n := int(rec.h.ContentLength) + int(rec.h.PaddingLength)\n", New: "	if rec.h.ContentLength == 0 {\n		err = io.EOF\n		return\n	}\n	n := int(rec.h.ContentLength) + int(rec.h.PaddingLength)\n", Expect: "resp-end|record.read"},
+			{Name: "stderr-record-ends-reply", File: "bfe_fcgi/fcgi_client.go", Old: "	if rec.h.Type == FCGIEndRequest {\n		err = io.EOF\n		return\n	}\n", New: "	if rec.h.Type == FCGIEndRequest || rec.h.Type == FCGIStderr {\n		err = io.EOF\n		return\n	}\n", Expect: "resp-end|record.read"},
+			{Name: "silent-read-error-returned-explicitly", File: "bfe_fcgi/fcgi_client.go", Old: "			w.buf, err = rec.read(w.c.rwc)\n			if err != nil {\n				return\n			}\n", New: "			var rerr error\n			w.buf, rerr = rec.read(w.c.rwc)\n			if rerr != nil {\n				return 0, rerr\n			}\n", Silent: true},
 			{Name: "silent-rename-and-reorder", File: "bfe_fcgi/fcgi_client.go", Old: "		n := len(p)\n		if n > maxWrite {\n			n = maxWrite\n		}\n		if err := w.c.writeRecord(w.recType, p[:n]); err != nil {\n			return nn, err\n		}\n		nn += n\n		p = p[n:]", New: "		chunk := len(p)\n		if maxWrite < chunk {\n			chunk = maxWrite\n		}\n		if err := w.c.writeRecord(w.recType, p[:chunk]); err != nil {\n			return nn, err\n		}\n		p = p[chunk:]\n		nn += chunk", Silent: true},
 		},
 	})
@@ -569,6 +573,7 @@ func c55reader(c *core.Ctx) {
 	endReq, _ := nxConstOf(c, c55pkg, "FCGIEndRequest")
 	stdout, _ := nxConstOf(c, c55pkg, "FCGIStdout")
 	stderr, _ := nxConstOf(c, c55pkg, "FCGIStderr")
+	c55respEnd(c, rd, sr, fType, endReq)
 	// comparisons of h.Type on the read path
 	typeCmp := map[int64][]*ssa.If{}
 	scope := core.TransitiveCallees(sr, 2)
